@@ -116,6 +116,16 @@ def run(res, replay=None):
             pr = dict(base, model=pre, n_items=[['a', 3], ['b', 1]])
             items.append(dict(spec=sp, lc=False, prelude=[pr],
                               ops=[o for o in build_ops(rng, sp) if o['py'].get('path') in ('sfs.mean', 'fsfs.mean')]))
+    # designed (seed-independent): (a) the textbook case - Kingman, one population of constant size - with an end time / a start
+    # time on the Coalescent (closed forms of the complete tree do not apply to a window); (b) time-scaled multiple-merger models in
+    # one population whose size changes (the time scale is not linear in N: rates of a new epoch are not a rescaling of an old one)
+    if not replay:
+        for extra in ({'end_time': 1.5}, {'start_time': 0.25, 'end_time': 3.0}):
+            sp = dict({'n_items': [['a', 4]], 'model': {'kind': 'kingman'}, 'pop_sizes': {'a': {'0.0': 2.0}}, 'designed': 'window_constant_size'}, **extra)
+            items.append(dict(spec=sp, lc=False, ops=[o for o in build_ops(rng, sp) if o['py'].get('path') in ('sfs.mean', 'fsfs.mean')]))
+        for mdl in ({'kind': 'dirac', 'psi': 0.5, 'c': 1.0, 'scale_time': True}, {'kind': 'beta', 'alpha': 1.5, 'scale_time': True}):
+            sp = {'n_items': [['a', 4]], 'model': mdl, 'pop_sizes': {'a': {'0.0': 1.0, '0.5': 4.0, '2.0': 0.5}}, 'designed': 'scaled_mm_size_change'}
+            items.append(dict(spec=sp, lc=False, ops=[o for o in build_ops(rng, sp) if o['py'].get('path') in ('sfs.mean', 'fsfs.mean', 'sfs.var')]))
     # SFS accumulation curves on several points at once (points inside epochs, on boundaries, beyond the last change)
     for s in specs[: (3 if res.tier == 'quick' else 15)]:
         if s.get('start_time'):
